@@ -3,16 +3,16 @@ SRC = ['repo:src/String.cpp', 'repo:src/Memory.cpp']
 NSRC = SRC + ['repo:src/Error.cpp', 'repo:src/File.cpp', 'repo:src/Directory.cpp', 'repo:src/Mutex.cpp', 'repo:src/Thread.cpp', 'repo:src/Time.cpp', 'repo:src/Signal.cpp', 'repo:src/System.cpp', 'repo:src/Debug.cpp', 'repo:src/Library.cpp']
 UNITS = [dict(
     name='args', harness='harness/c20_args.cpp', sources=SRC, native_sources=NSRC, native_flags=['-ldl'],
-    defines={'quick': {'VF_ARGC': 2, 'VF_ARGL': 5, 'VF_ARGL2': 2, 'VF_CL': 5}, 'thorough': {'VF_ARGC': 3, 'VF_ARGL': 6, 'VF_ARGL2': 3, 'VF_CL': 7}},
-    entries=['arguments', 'split'],
+    defines={'quick': {'VF_ARGC': 2, 'VF_ARGL': 5, 'VF_ARGL2': 2, 'VF_CL': 5, 'VF_ARGCM': 4, 'VF_ARGLM': 2}, 'thorough': {'VF_ARGCM': 5, 'VF_ARGLM': 2, 'VF_ARGC': 3, 'VF_ARGL': 6, 'VF_ARGL2': 3, 'VF_CL': 7}},
+    entries=['arguments', 'arguments_many', 'split'],
     opts={'all': {'unwind': 64, 'max_instr': 300000}},
     split={'quick': 12, 'thorough': 16},
     budget={'quick': 280, 'thorough': 2600},
-    validate=['arguments', 'split'],
+    validate=['arguments', 'arguments_many', 'split'],
 )]
 BOUNDS = {
-    'quick': 'argument vectors of <= 2 strings (first <= 5 characters, second <= 2) over {-,=,a,b,x} in exactly sized objects, option table {a: flag/--aa, b: required argument/--bb, --xx: optional argument} vs. a getopt_long-style reference ("--flag=value" excluded as unspecified); command lines of <= 5 characters over {space, ", \\\\, a} vs. a reference splitter; termination via the instruction budget',
-    'thorough': 'argument vectors of <= 3 strings (first <= 6 characters, others <= 3); command lines <= 7 characters',
+    'quick': 'argument vectors of <= 2 strings (first <= 5 characters, second <= 2) over {-,=,a,b,x} in exactly sized objects, and of <= 4 strings of <= 2 characters each, option table {a: flag/--aa, b: required argument/--bb, --xx: optional argument} vs. a getopt_long-style reference ("--flag=value" excluded as unspecified); command lines of <= 5 characters over {space, ", \\\\, a} vs. a reference splitter; termination via the instruction budget',
+    'thorough': 'argument vectors of <= 3 strings (first <= 6 characters, others <= 3) and of <= 5 strings of <= 2 characters; command lines <= 7 characters',
 }
 OUTSIDE = 'exec/argv/environment/pipes/exit codes of real child processes (kernel behaviour: not applicable to solver-based checking, DESIGN section 4); longer argument vectors'
 ASSUMPTIONS = ['clang++-14 -O1 IR of src/Process.cpp (Arguments::read/nextChar, Private::splitCommandLine only are executed), src/String.cpp, src/Memory.cpp']
